@@ -2,14 +2,16 @@
 C30 — where the notifications come from: `telegram/internal/manager/conn.go`.
 
 `mtproto` calls `Conn.OnSession(session)` when the server has confirmed a session on that
-connection.  `Conn` appends it to `pending` and, once the connection's config is known
-(`init`: `initConnection(help.getConfig)` answered — or, in CDN mode, `tg.Config{ThisDC: c.dc}`
-without asking), `flushPendingSession` hands every pending session, in order, to the client
-handler together with THAT connection's config: `handler.OnSession(c.cfg, s)`.  The handler is
-`onSession` for regular connections and `onCDNSession` for CDN connections.
+connection.  `Conn` appends it to `pending` and, if the connection's config is ready
+(`gotConfig` signalled), `flushPendingSession` hands every pending session, in order, to the
+client handler together with the connection's config: `handler.OnSession(c.cfg, s)`.
+`Conn.init` obtains the config (`initConnection(help.getConfig)`; CDN mode: `tg.Config{ThisDC:
+c.dc}` without asking), runs the optional `Setup` callback (auth transfer — during which the read
+loop may deliver further sessions), stores the config, signals readiness and flushes.
 
-So the `cfg.ThisDC` of a notification is the DC the server of the very connection that produced
-the key reported (or the DC the CDN connection was dialled to).  Core Lean only.
+The ORDER of those steps is read from the source (`Facts.C30.connInitRegular`, `connInitCDN`:
+structurally classified statements of `init`) and interpreted here: `c.cfg` is the zero config
+until the "cfg=" step, `OnSession` flushes as soon as "ready" has happened.  Core Lean only.
 -/
 import TdModel.Model.C30Interp
 
@@ -23,42 +25,84 @@ structure SessEv where
   salt : Int
   deriving DecidableEq, Repr
 
-/-- `manager.Conn`: mode, dialled DC, `cfg.ThisDC` once `gotConfig` is signalled, `pending`. -/
+/-- `manager.Conn`. -/
 structure MConn where
   cdn : Bool
+  /-- the DC it was dialled to -/
   dc : Int
-  cfg : Option Int
+  /-- `ThisDC` of the config its server answers `help.getConfig` with -/
+  serverDC : Int
+  /-- next step of `init` -/
+  ipc : Nat
+  /-- `gotConfig` signalled -/
+  ready : Bool
+  /-- `c.cfg.ThisDC` (zero value until assigned) -/
+  cfg : Int
   pending : List SessEv
   deriving DecidableEq, Repr
 
 inductive MAct where
   /-- a connection is created (`CreateConn`) -/
-  | new (cdn : Bool) (dc : Int)
+  | new (cdn : Bool) (dc serverDC : Int)
   /-- `Conn.OnSession` on connection `id` -/
   | ev (id : Nat) (e : SessEv)
-  /-- `Conn.init` on connection `id`; the server's config says `ThisDC = serverDC` -/
-  | init (id : Nat) (serverDC : Int)
+  /-- `Conn.init` on connection `id` runs up to and including the start of the `Setup` callback -/
+  | initBegin (id : Nat)
+  /-- the `Setup` callback returns and `init` runs to its end -/
+  | initEnd (id : Nat)
   deriving DecidableEq, Repr
 
 def notifOf (c : MConn) (cfgDC : Int) (e : SessEv) : Notif :=
   ⟨if c.cdn then .cdn else .regular, cfgDC, e.key, e.perm, e.salt, .none⟩
 
+def initProg (cdn : Bool) : List String := if cdn then Facts.C30.connInitCDN else Facts.C30.connInitRegular
+
+/-- `flushPendingSession`. -/
+def flushConn (c : MConn) : MConn × List Notif :=
+  ({ c with pending := [] }, c.pending.map (notifOf c c.cfg))
+
+/-- One classified statement of `init`. -/
+def microStep (c : MConn) (tag : String) : MConn × List Notif :=
+  if tag = "cfg<-server" then (c, [])
+  else if tag = "setup" then (c, [])
+  else if tag = "cfg=server" then ({ c with cfg := c.serverDC }, [])
+  else if tag = "cfg=this-dc(conn.dc)" then ({ c with cfg := c.dc }, [])
+  else if tag = "ready" then ({ c with ready := true }, [])
+  else if tag = "flush" then flushConn c
+  else ({ c with cfg := poisonInt }, [])
+
+/-- Run `init` from where it stands; with `untilSetup`, stop once the `Setup` callback has started. -/
+def runInit (untilSetup : Bool) : Nat → MConn → List Notif → MConn × List Notif
+  | 0, c, out => (c, out)
+  | fuel + 1, c, out =>
+    match (initProg c.cdn)[c.ipc]? with
+    | none => (c, out)
+    | some tag =>
+      let r := microStep c tag
+      let c' := { r.1 with ipc := c.ipc + 1 }
+      if untilSetup && tag = "setup" then (c', out ++ r.2)
+      else runInit untilSetup fuel c' (out ++ r.2)
+
+/-- `Conn.OnSession`. -/
+def onConnSession (c : MConn) (e : SessEv) : MConn × List Notif :=
+  let c' := { c with pending := c.pending ++ [e] }
+  if c'.ready then flushConn c' else (c', [])
+
 /-- One action on the connections: the new connections and what is handed to the client handler. -/
 def mstep (cs : List MConn) : MAct → List MConn × List Notif
-  | .new cdn dc => (cs ++ [⟨cdn, dc, none, []⟩], [])
+  | .new cdn dc sdc => (cs ++ [⟨cdn, dc, sdc, 0, false, 0, []⟩], [])
   | .ev id e =>
     match cs[id]? with
     | none => (cs, [])
-    | some c =>
-      match c.cfg with
-      | none => (cs.set id { c with pending := c.pending ++ [e] }, [])
-      | some d => (cs.set id { c with pending := [] }, (c.pending ++ [e]).map (notifOf c d))
-  | .init id serverDC =>
+    | some c => (cs.set id (onConnSession c e).1, (onConnSession c e).2)
+  | .initBegin id =>
     match cs[id]? with
     | none => (cs, [])
-    | some c =>
-      let d := if c.cdn then c.dc else serverDC
-      (cs.set id { c with cfg := some d, pending := [] }, c.pending.map (notifOf c d))
+    | some c => (cs.set id (runInit true 8 c []).1, (runInit true 8 c []).2)
+  | .initEnd id =>
+    match cs[id]? with
+    | none => (cs, [])
+    | some c => (cs.set id (runInit false 8 c []).1, (runInit false 8 c []).2)
 
 /-- All notifications handed to the client handler by a list of actions, in order. -/
 def deliveries : List MConn → List MAct → List Notif
@@ -69,5 +113,8 @@ def deliveries : List MConn → List MAct → List Notif
 def mrun : St × List MConn → List MAct → St × List MConn
   | sc, [] => sc
   | (s, cs), a :: rest => mrun (runI s (mstep cs a).2, (mstep cs a).1) rest
+
+/-- The config the connection's sessions must be paired with. -/
+def MConn.ownDC (c : MConn) : Int := if c.cdn then c.dc else c.serverDC
 
 end TdModel.C30
